@@ -16,6 +16,7 @@ import YardlModel.SyntaxJson
 import YardlModel.TypeParser
 import YardlModel.Determinism
 import YardlModel.Namespaces
+import YardlModel.Resolve
 import YardlModel.ProtoMatlab
 import YardlModel.Evolution
 import YardlModel.Topo
@@ -555,8 +556,11 @@ def handle (j : Json) : Except String Json := do
     let ps := Namespaces.parseNs G fuel root []
     let refs : Nat → List Nat := fun n => (Namespaces.get ps n).getD []
     let order := Namespaces.flatten refs fuel root []
+    -- the namespaces each namespace can refer to (Resolve.visible over the References just computed)
+    let vis := ps.map fun e => Json.arr #[jn e.1, Json.arr ((Resolve.visible refs fuel e.1).map jn).toArray]
     pure (Json.mkObj [("order", Json.arr (order.map jn).toArray),
-                      ("references", Json.arr (ps.map fun e => Json.arr #[jn e.1, Json.arr (e.2.map jn).toArray]).toArray)])
+                      ("references", Json.arr (ps.map fun e => Json.arr #[jn e.1, Json.arr (e.2.map jn).toArray]).toArray),
+                      ("visible", Json.arr vis.toArray)])
   | "write_if_needed" =>
     -- Det.writeIfNeeded on the file contents the Go harness builds (same byte pattern)
     let pat (n : Nat) : List UInt8 := (List.range n).map fun i => UInt8.ofNat ((i * 31 + i / 4096 * 7 + 11) % 251)
